@@ -263,6 +263,29 @@ func runC07(c *core.Ctx) {
 						bad = ""
 					}
 				}
+				if bad == "" && totX != nil {
+					// presentation flags of the register do not change what the single-element rows add up to
+					for _, extra := range [][]string{{"--totals-only"}, {"--no-totals"}, {"--shorten"}, {"--use-old-reg-reporter"}, {"--internal-template-name", "left-aligned"}} {
+						fArgsCmd := append([]string{"reg", "-s", X}, extra...)
+						fRes, fArgs := runCmd(true, fArgsCmd...)
+						if failed {
+							return
+						}
+						fr, ferr := obs.ParseRegSingle(fRes.Out, X)
+						ss := new(big.Rat)
+						for _, row := range fr {
+							ss.Add(ss, row.Sum)
+						}
+						good := ferr == nil && ss.Cmp(totX.Sum) == 0
+						if ferr == nil && !exact {
+							good = tolN(ss, totX.Sum, len(fr)+1, 2, absAll)
+						}
+						if !good {
+							viol("R2 reg -s with presentation flags vs report totals", fmt.Sprintf("Σ %s rows = %s (%d rows, %v), report totals sum %s", joinArgs(fArgsCmd), rs(ss), len(fr), ferr, rs(totX.Sum)), fArgs, fRes, totArgs, totRes)
+							break
+						}
+					}
+				}
 				if bad != "" {
 					viol("R2 reg -s vs daily totals/report totals", bad, sArgs, sRes, totArgs, totRes)
 				} else if len(rows) > 0 {
